@@ -15,7 +15,7 @@ vars == <<l>>
 TsDayMin == EpochDayMin + 2
 TsDayMax == EpochDayMax - 1
 
-DateOrZero(n) == IF n \in EpochDayMin..EpochDayMax THEN DateOfEpochDay(n) ELSE 0
+DateOrZero(n) == IF n \in EpochDayMin..EpochDayMax THEN DateOfEpochDay(n) ELSE <<>>
 
 \* ---- op "date": Date::new + all facts -----------------------------------
 DateWhy(r) ==
